@@ -17,11 +17,7 @@ Definition arena_try_purge_calls_stmt : Prop :=
     exists i c, i <= b /\ b < i + c /\
       In (KMadvise, a_start a + i * BLOCK, c * BLOCK, MADV_DONTNEED_) (calls (fst (fst (arena_try_purge cfg oracle o a now force)))).
 
-(* soundness of the commit mask under purge in builds where decommit revokes access (decommit_protects): proved only for
-   commit / ensure_committed (C13_ensure_committed) *)
-Definition mask_sound_purge_stmt : Prop :=
-  forall cfg oracle o s p size, seg_ok2 s -> is_huge s = false -> mask_sound o s ->
-    mask_sound (fst (segment_purge cfg oracle o s p size)) (snd (segment_purge cfg oracle o s p size)).
+(* (mask_sound_purge_stmt, formerly here: proved as stated, Proofs/MaskSound.v, theorem C13_mask_sound_purge) *)
 
 (* (arena_eventually_purged_stmt, formerly here: proved with the hypothesis 0 <= t0 in Proofs/PurgePasses.v, theorem
    C18_arena_eventually_purged; refuted as it stood, for a negative clock, by arena_eventually_purged_any_clock_refuted) *)
